@@ -211,6 +211,23 @@ func c19Mutate(r *vlib.Rand, t string) (string, string) {
 			return t[:k.e] + strings.Repeat("b", 70000) + t[k.e:], "very_long_value"
 		}
 	}
+	if r.Chance(0.04) {
+		// a lone CR (or other line-ending look-alike) inside a comment, followed by text
+		// that would be live configuration if the comment ended there
+		brk := vlib.Pick(r, []string{"\r", "\r", "\u2028", "\u0085", "\v", "\f", "\r\r", "\x00"})
+		tail := vlib.Pick(r, []string{"/debug { pull { path /pull/debug } }", "do not edit by hand", " \t ", "# still a comment", "ingress { listen :1 }", "}"})
+		cm := "# note" + brk + tail
+		if k, ok := pick('c'); ok && r.Bool() {
+			return t[:k.e] + brk + tail + t[k.e:], "line_break_lookalike_in_comment"
+		}
+		lines := strings.Split(t, "\n")
+		i := 0
+		if r.Bool() {
+			i = r.Intn(len(lines) + 1)
+		}
+		lines = append(lines[:i], append([]string{cm}, lines[i:]...)...)
+		return strings.Join(lines, "\n"), "line_break_lookalike_in_comment"
+	}
 	switch r.Intn(14) {
 	case 0: // quote an unquoted value
 		if k, ok := pick('i'); ok {
